@@ -1030,3 +1030,46 @@ def rule_is_value(repo, res):
                                             "different, so the outcome depends on interning and on the size of the numbers",
                                             where=f"pvl/collections.py:{c.lineno}"))
     res.oblige("IS-VALUE", f"{n} identity comparisons in the container module examined", ok=True)
+
+
+def rule_p7(repo, res):
+    """P7: a copy hook (copy / __copy__ / __deepcopy__ / __reduce__ / __reduce_ex__) of any container class of
+    pvl/collections.py makes its result with the class of the object being copied -- type(self) / self.__class__ / the
+    result of super()'s hook -- never with a class named in the source: the hook is inherited by subclasses (the
+    library's own PVLGroup/PVLObject and the caller's module_class / group_class substitutes), whose copies would come out
+    as the named base class and compare unequal to the original."""
+    n = 0
+    names = set(repo.classes) | {"dict", "list", "OrderedDict"}
+    for cname, cnode in repo.module("collections").classes.items():
+        if cname not in repo.classes:
+            continue
+        mro = repo.mro(cname)
+        if not any(b in mro for b in (CONTAINER, "MutableMappingSequence")) and cname != CONTAINER:
+            continue
+        for fn in [x for x in cnode.body if isinstance(x, ast.FunctionDef)
+                   and x.name in ("__copy__", "__deepcopy__", "copy", "__reduce__", "__reduce_ex__")]:
+            n += 1
+            bad = []
+            returned = set()
+            for r in ast.walk(fn):
+                if isinstance(r, ast.Return) and r.value is not None:
+                    for x in ast.walk(r.value):
+                        if isinstance(x, ast.Name):
+                            returned.add(x.id)
+            for x in ast.walk(fn):
+                # Cls(...) as the returned object, or bound to a name that is returned; (Cls, args) in a reduction
+                if isinstance(x, ast.Call) and isinstance(x.func, ast.Name) and x.func.id in repo.classes \
+                        and CONTAINER in repo.mro(x.func.id) + [x.func.id]:
+                    par = getattr(x, "_parent", None)
+                    if isinstance(par, ast.Return) or (isinstance(par, ast.Assign) and any(isinstance(t, ast.Name) and t.id in returned for t in par.targets)):
+                        bad.append((x, f"{x.func.id}(...)"))
+                if fn.name.startswith("__reduce") and isinstance(x, ast.Return) and isinstance(x.value, ast.Tuple) and x.value.elts \
+                        and isinstance(x.value.elts[0], ast.Name) and x.value.elts[0].id in repo.classes:
+                    bad.append((x, f"reduction to the class {x.value.elts[0].id}"))
+            res.oblige("P7", f"{cname}.{fn.name} builds its result with the class of the object copied (no class named in the source)", ok=not bad)
+            for x, what in bad:
+                res.add(Finding("P7", f"{cname}.{fn.name}", f"copy made as {what}",
+                                f"{cname}.{fn.name} builds the copy as {what}: for an instance of a subclass ({cname}'s own subclasses or "
+                                "the caller's module_class / group_class / object_class) the copy has another class than the original, "
+                                "and equality (which requires the same class) fails", where=f"pvl/collections.py:{x.lineno}"))
+    res.floor("copy hooks of container classes", n, 2)
